@@ -484,6 +484,76 @@ def spec_unlink(pool, plinks, pre_l, pre_e, a, b, destroy, result):
     return ok
 
 
+def _others_unchanged(pool, pre_l, skip):
+    ok = True
+    i = 0
+    while i < len(pool):
+        if not (pool[i] is skip):
+            ok = ok and (pool[i]._links == pre_l[i])
+        i = i + 1
+    return ok
+
+
+def spec_unlink_from(pool, plinks, pre_l, pre_e, l, x):
+    """l.unlink_from(x): no action when x is not one of l's ends; a vertex stops being an end of l altogether
+    and stops listing it; for None exactly one empty end slot (the first) is given up"""
+    j = index_of(plinks, l)
+    if count_is(pre_e[j], x) == 0:
+        return spec_unchanged(pool, plinks, pre_l, pre_e)
+    if x is None:
+        want = []
+        dropped = False
+        for y in pre_e[j]:
+            if (y is None) and not dropped:
+                dropped = True
+            else:
+                want.append(y)
+        return (l._vertices == want) and _others_unchanged(pool, pre_l, None) and frame_links_ok(plinks, pre_e, [l])
+    ok = (l._vertices == without(pre_e[j], x)) and (x._links == without(pre_l[index_of(pool, x)], l))
+    return ok and _others_unchanged(pool, pre_l, x) and frame_links_ok(plinks, pre_e, [l])
+
+
+def spec_add_vertex(pool, plinks, pre_l, pre_e, l, x):
+    """l.add_vertex(x): x is appended to l's ends; a vertex that did not list l yet lists it last"""
+    j = index_of(plinks, l)
+    ok = (l._vertices == pre_e[j] + [x]) and frame_links_ok(plinks, pre_e, [l])
+    if x is None:
+        return ok and _others_unchanged(pool, pre_l, None)
+    i = index_of(pool, x)
+    if count_is(pre_l[i], l) > 0:
+        ok = ok and (x._links == pre_l[i])
+    else:
+        ok = ok and (x._links == pre_l[i] + [l])
+    return ok and _others_unchanged(pool, pre_l, x)
+
+
+def spec_add_to_link(pool, plinks, pre_l, pre_e, v, l):
+    """v.add_to_link(l): nothing when v lists l already; otherwise l is appended to v's links and v to l's ends"""
+    i = index_of(pool, v)
+    j = index_of(plinks, l)
+    if count_is(pre_l[i], l) > 0:
+        return spec_unchanged(pool, plinks, pre_l, pre_e)
+    ok = (v._links == pre_l[i] + [l]) and (l._vertices == pre_e[j] + [v])
+    return ok and _others_unchanged(pool, pre_l, v) and frame_links_ok(plinks, pre_e, [l])
+
+
+def spec_remove_from_link(pool, plinks, pre_l, pre_e, v, l):
+    """v.remove_from_link(l): v no longer lists l and is no longer one of its ends; nothing else changes"""
+    i = index_of(pool, v)
+    j = index_of(plinks, l)
+    ok = (v._links == without(pre_l[i], l)) and (l._vertices == without(pre_e[j], v))
+    return ok and _others_unchanged(pool, pre_l, v) and frame_links_ok(plinks, pre_e, [l])
+
+
+def first_joining(pool, plinks, pre_l, pre_e, v, w):
+    """the first link, in v's own link order, that joins v and w (what a dontdup call hands back)"""
+    for l in pre_l[index_of(pool, v)]:
+        j = index_of(plinks, l)
+        if (j >= 0) and joins(pre_e[j], v, w):
+            return l
+    return None
+
+
 # ---------------------------------------------------------------------------
 # C07: properties of the orders stated directly (independent of the three reference traversals above)
 def hop_distances(uni, start, d, u, ff):
